@@ -63,20 +63,40 @@ def slice_unit(prop, name, builder, K, timeout_s=900, params=None):
                  and k.get("unit") == builder]
         known_preds = {k["id"]: spec["known"][k["predicate"]] for k in known if k.get("predicate") in spec.get("known", {})}
         excl = z3.Not(z3.Or(*known_preds.values())) if known_preds else z3.BoolVal(True)
+        if "g.flag_written_unlocked" in sl.S.decl and spec.get("safety") is not None:
+            spec["safety"] = dict(spec["safety"])
+            spec["safety"]["C01/C02 an executor flag (shutdown / broken / kill_workers) is written while the shutdown lock is "
+                           "free: submit() can read a half-published state"] = sl.S["g.flag_written_unlocked"]
         for kind in ("safety", "stuck"):
             table = spec.get(kind) or {}
             if not table:
                 continue
             bad = z3.And(z3.Or(*table.values()), excl)
-            r = b.safety(bad) if kind == "safety" else b.stuck(bad)
-            res.queries += 1
-            res.solver_s += r.seconds
-            if r.verdict == "unsat":
+            seen, r, problem = [], None, None
+            for attempt in range(4):
+                # a counterexample whose replay diverges from the real code is never reported; the same query is
+                # asked again without that schedule (up to 3 times) before the unit gives up as inconclusive
+                r = b.safety(bad, seen) if kind == "safety" else b.stuck(bad, seen)
+                res.queries += 1
+                res.solver_s += r.seconds
+                if r.verdict != "sat":
+                    break
+                try:
+                    steps, init_state, ms, diffs, errors = replay(r)
+                    problem = f"counterexample does not replay on the real code (model/translator error): {diffs[:4]}" if diffs else None
+                except Divergence as e:
+                    problem = f"replay diverged (model/translator error): {e}"
+                if problem is None:
+                    break
+                seen.append(b.schedule(r.model))
+            if r.verdict == "unsat" and not seen:
                 res.discharged += 1
+            elif r.verdict == "unsat":
+                res.detail = problem + " (no other counterexample exists)"
+                return _fin(res, t0)
             elif r.verdict == "sat":
-                steps, init_state, ms, diffs, errors = replay(r)
-                if diffs:
-                    res.detail = f"counterexample does not replay on the real code (model/translator error): {diffs[:4]}"
+                if problem is not None:
+                    res.detail = problem
                     return _fin(res, t0)
                 k = len(steps)
                 which = [txt for txt, pred in table.items() if z3.is_true(r.model.eval(b.at(pred, k), model_completion=True))]
